@@ -34,10 +34,20 @@ def main():
         res['tests_tail'] = out.strip().splitlines()[-1] if out.strip() else ''
         demo = os.path.abspath(os.path.join(d, 'demo.py'))
         if os.path.exists(demo):
-            rc0, _ = sh('/venv/bin/python %s' % demo, cwd=clean)
-            rc1, _ = sh('/venv/bin/python %s' % demo, cwd=mut)
+            rc0, _ = sh('/venv/bin/python %s' % demo, cwd=clean, env={'PYTHONPATH': clean}, timeout=600)
+            rc1, _ = sh('/venv/bin/python %s' % demo, cwd=mut, env={'PYTHONPATH': mut}, timeout=600)
             res['demo_clean_rc'] = rc0; res['demo_patched_rc'] = rc1
         res['checks'] = {}
+        if '--demo-only' in sys.argv:
+            name = sys.argv[sys.argv.index('--keep') + 1]
+            mp = os.path.join(V, 'seeded', name, 'meta.json')
+            meta = json.load(open(mp))
+            meta['confirmed'] = {'tests_pass_with_patch': res['tests_pass_with_patch'],
+                                 'demo_rc_without_patch': res.get('demo_clean_rc'),
+                                 'demo_rc_with_patch': res.get('demo_patched_rc')}
+            json.dump(meta, open(mp, 'w'), indent=1)
+            print(name, json.dumps(meta['confirmed']))
+            return 0
         for p in props:
             rc, out = sh('./check %s --tier %s' % (p, tier), cwd=V, env={'VERIF_REPO': mut})
             viol = [l for l in out.splitlines() if l.startswith('VIOLATION')]
